@@ -584,6 +584,11 @@ func (t *termer) t(v ssa.Value, d int) string {
 	case *ssa.Alloc:
 		return "alloc(" + v.Comment + ")"
 	case *ssa.FieldAddr:
+		if al, ok := v.X.(*ssa.Alloc); ok {
+			if sv := singleStore(al); sv != nil {
+				return t.t(sv, d+1) + "." + fieldName(v.X.Type(), v.Field)
+			}
+		}
 		return t.t(v.X, d+1) + "." + fieldName(v.X.Type(), v.Field)
 	case *ssa.Field:
 		return t.t(v.X, d+1) + "." + fieldName(v.X.Type(), v.Field)
@@ -760,6 +765,16 @@ func singleStore(a *ssa.Alloc) ssa.Value {
 			}
 		case *ssa.UnOp:
 		case *ssa.DebugRef:
+		case *ssa.FieldAddr:
+			// field of a spilled struct value: fine if the field is only read
+			if isWriteAccess(r) || fieldAddrEscapes(r) {
+				return nil
+			}
+		case *ssa.MakeClosure:
+			// captured by a function literal: fine as long as the literal never assigns the variable
+			if closureStores(r, a) {
+				return nil
+			}
 		default:
 			return nil // address escapes
 		}
@@ -768,6 +783,54 @@ func singleStore(a *ssa.Alloc) ssa.Value {
 		return sv
 	}
 	return nil
+}
+
+// fieldAddrEscapes: the field address is used other than by loads (and nested field/index addressing that is only loaded).
+func fieldAddrEscapes(fa *ssa.FieldAddr) bool {
+	for _, r := range *fa.Referrers() {
+		switch x := r.(type) {
+		case *ssa.UnOp:
+		case *ssa.DebugRef:
+		case *ssa.FieldAddr:
+			if isWriteAccess(x) || fieldAddrEscapes(x) {
+				return true
+			}
+		default:
+			return true
+		}
+	}
+	return false
+}
+
+// closureStores: the function literal (or a literal nested in it) stores to the captured variable v.
+func closureStores(mc *ssa.MakeClosure, v ssa.Value) bool {
+	fn, ok := mc.Fn.(*ssa.Function)
+	if !ok {
+		return true
+	}
+	for i, b := range mc.Bindings {
+		if b != v || i >= len(fn.FreeVars) {
+			continue
+		}
+		fv := fn.FreeVars[i]
+		stored := false
+		eachInstr(fn, func(ins ssa.Instruction) {
+			switch x := ins.(type) {
+			case *ssa.Store:
+				if x.Addr == fv {
+					stored = true
+				}
+			case *ssa.MakeClosure:
+				if closureStores(x, fv) {
+					stored = true
+				}
+			}
+		})
+		if stored {
+			return true
+		}
+	}
+	return false
 }
 
 // pred renders a branch condition with the polarity of the taken edge folded in, normalised:
@@ -1078,6 +1141,37 @@ func variadicElems(v ssa.Value) []ssa.Value {
 	return out
 }
 
+// unspill resolves results that go/ssa spilled to result variables because the function has defers:
+// "return x" becomes "store result = x; rundefers; return *result". The value stored in the return's own
+// block is used when there is one.
+func unspill(ret *ssa.Return) []ssa.Value {
+	out := append([]ssa.Value{}, ret.Results...)
+	b := ret.Block()
+	for i, v := range out {
+		ld, ok := v.(*ssa.UnOp)
+		if !ok || ld.Op != token.MUL {
+			continue
+		}
+		al, ok := ld.X.(*ssa.Alloc)
+		if !ok {
+			continue
+		}
+		var last ssa.Value
+		for _, ins := range b.Instrs {
+			if ins == ld {
+				break
+			}
+			if st, ok := ins.(*ssa.Store); ok && st.Addr == al {
+				last = st.Val
+			}
+		}
+		if last != nil {
+			out[i] = last
+		}
+	}
+	return out
+}
+
 // returnOutcomes lists the (phi-expanded) returns of fn with their error sentinels and controlling predicates.
 func returnOutcomes(fn *ssa.Function) []retOutcome {
 	var out []retOutcome
@@ -1097,11 +1191,12 @@ func returnOutcomes(fn *ssa.Function) []retOutcome {
 		if !ok || b == fn.Recover {
 			continue
 		}
-		if errIdx < 0 || errIdx >= len(ret.Results) {
-			out = append(out, retOutcome{Ret: ret, Conds: condStrings(ctrlConds(b)), Vals: ret.Results})
+		results := unspill(ret)
+		if errIdx < 0 || errIdx >= len(results) {
+			out = append(out, retOutcome{Ret: ret, Conds: condStrings(ctrlConds(b)), Vals: results})
 			continue
 		}
-		ev := ret.Results[errIdx]
+		ev := results[errIdx]
 		if phi, ok := ev.(*ssa.Phi); ok && phi.Block() == b {
 			for i, e := range phi.Edges {
 				pred := b.Preds[i]
@@ -1111,13 +1206,13 @@ func returnOutcomes(fn *ssa.Function) []retOutcome {
 						si = k
 					}
 				}
-				vals := append([]ssa.Value{}, ret.Results...)
+				vals := append([]ssa.Value{}, results...)
 				vals[errIdx] = e
 				out = append(out, retOutcome{Ret: ret, Pred: pred, Sentinels: sentinelsOf(e), Conds: condStrings(ctrlCondsEdge(pred, si)), Vals: vals, ErrTerm: term(e), NonNil: alwaysNonNil(e)})
 			}
 			continue
 		}
-		out = append(out, retOutcome{Ret: ret, Sentinels: sentinelsOf(ev), Conds: condStrings(ctrlConds(b)), Vals: ret.Results, ErrTerm: term(ev), NonNil: alwaysNonNil(ev)})
+		out = append(out, retOutcome{Ret: ret, Sentinels: sentinelsOf(ev), Conds: condStrings(ctrlConds(b)), Vals: results, ErrTerm: term(ev), NonNil: alwaysNonNil(ev)})
 	}
 	return out
 }
